@@ -366,6 +366,14 @@ func (p c16) Run(c *fw.Case) {
 				opts.TypeSchemas[std[i]] = &jsonschema.Schema{Types: []string{"string", "number"}, Description: "caller's " + std[i].String()}
 			}
 		}
+		if r.IntN(5) == 0 {
+			// kinds For cannot translate (map[int]bool, complex128 with marshalers) WITH entries, IgnoreInvalidTypes on or off;
+			// and an entry written in the draft-07 tuple form of items (ItemsArray)
+			t = gen.Pick(r, []reflect.Type{reflect.TypeFor[typecorpus.WithInvalidKinds](), reflect.TypeFor[[]typecorpus.WithInvalidKinds](), reflect.TypeFor[map[string]typecorpus.WithInvalidKinds]()})
+			opts.TypeSchemas[reflect.TypeFor[typecorpus.IDSet]()] = &jsonschema.Schema{Type: "array", Items: &jsonschema.Schema{Type: "integer"}}
+			opts.TypeSchemas[reflect.TypeFor[typecorpus.Point]()] = &jsonschema.Schema{Type: "array", ItemsArray: []*jsonschema.Schema{{Type: "number"}, {Type: "number", Description: "imaginary part"}}}
+			opts.IgnoreInvalidTypes = r.IntN(2) == 0
+		}
 		if r.IntN(4) == 0 {
 			// entries keyed by UNNAMED types (slice, map, array, anonymous struct, interface): substituted like any other
 			t = gen.Pick(r, []reflect.Type{reflect.TypeFor[typecorpus.UnnamedKinds](), reflect.TypeFor[[]typecorpus.UnnamedKinds](), reflect.TypeFor[map[string][]string]()})
